@@ -83,5 +83,13 @@ def eq(a, b):
     return a == b
 
 
+def opaque(f):
+    """marks a specification predicate as opaque for the solver: calls are encoded as an
+    uninterpreted predicate; a contract listing it under reveal= gets the defining axiom
+    (pattern-instantiated).  Natively it is just the function."""
+    f._opaque = True
+    return f
+
+
 SPEC_NAMES = ['implies', 'iff', 'forall', 'exists', 'ite', 'approx', 'close', 'is_none', 'same_object', 'raw',
               'is_quantity', 'is_number', 'seq_len', 'eq']
